@@ -708,7 +708,8 @@ def float_case(draw: Any) -> dict[str, Any]:
     return {"kind": "float", "site": site, "lit": lit}
 
 
-_json_text = st.text(alphabet=_char.filter(lambda s: len(s) == 1), max_size=6)
+_json_text = st.text(alphabet=st.one_of(st.sampled_from([a for a in ATOMS if len(a) == 1]),
+                                        st.characters(min_codepoint=8, blacklist_categories=("Cs",))), max_size=6)
 JSON_SPECIAL: list[Any] = [
     None, True, False, 0, 1, -1, 2**53, 2**53 + 1, -(2**53) - 1, 2**63, 2**64 + 1, 10**30, 10**40, 0.0, -0.0, 1.0, 1e16,
     1e22, 1e23, 0.1, 5e-324, 1.7976931348623157e308, 2.0**53, 1e-7, "", "a",
@@ -720,7 +721,7 @@ INDENT_FORMS = [None, None, ["pos", 0], ["pos", 1], ["pos", 2], ["pos", 3], ["po
 def _json_shape(rnd: Any, leaves: list[Any], keys: list[str], budget: int, level: int = 0) -> Any:
     """A nested value whose leaves come from `leaves` (Hypothesis draws); the shape from a seeded private PRNG."""
     r = rnd.random()
-    if budget <= 1 or level >= 4 or r < 0.35:
+    if budget <= 1 or level >= 4 or r < (0.1 if level == 0 else 0.4):
         return rnd.choice(leaves)
     n = rnd.randint(0, min(4, budget))
     if r < 0.7:
